@@ -89,6 +89,12 @@ type pendingBody struct {
 	// drained is set once the reader has nothing left to give, so the last
 	// chunk can carry END_STREAM.
 	drained bool
+
+	// closed is set by whoever closes stream. The field itself never changes
+	// after the body has been registered: the write loop calls Read on it
+	// without holding anything, and a goroutine that gives the request up
+	// meanwhile must not pull it out from under that call.
+	closed atomic.Bool
 }
 
 // hasMore reports whether the body still owes the peer bytes.
@@ -1478,6 +1484,13 @@ func (c *Conn) sendPending(id uint32) error {
 			c.sendLck.Unlock()
 
 			if err := c.refillPending(pb); err != nil {
+				// A reader that fails because the request was given up
+				// meanwhile, and the stream closed with it, is no news: whoever
+				// did that has dealt with the stream.
+				if pb.closed.Load() {
+					return nil
+				}
+
 				// The body cannot be finished, and the peer is part way
 				// through one it would otherwise wait for.
 				c.deletePending(id)
@@ -1611,11 +1624,9 @@ func (c *Conn) refillPending(pb *pendingBody) error {
 // The caller must hold the Ctx: the Request stops being ours the moment
 // RoundTrip returns, and a caller that releases it closes the stream anyway.
 func (c *Conn) closeBodyStream(pb *pendingBody) {
-	if pb.stream == nil {
+	if pb.stream == nil || !pb.closed.CompareAndSwap(false, true) {
 		return
 	}
-
-	pb.stream = nil
 
 	_ = pb.ctx.Request.CloseBodyStream()
 }
